@@ -43,6 +43,27 @@ Theorem C30_restore_after_any_prefix : forall e t s,
 Proof. exact bracket_restores_prefix. Qed.
 Print Assumptions C30_restore_after_any_prefix.
 
+(* The time-out path as TestCaseExecutor.execute runs it: [t1] is what the code under test did before
+   the first join expired, [t2] what the condemned thread still does while the calling thread waits in
+   the grace join; OutputSuppressionContext.restore and the logging hand-back come after that join.
+   When execute() returns, Pynguin's view is as before, for all t1, t2.  (What a thread that outlives the
+   grace join does later is outside this property: C32.) *)
+Theorem C30_timeout_restores : forall e t1 t2 s,
+  std_streams s -> pyn_view (exec_timeout e t1 t2 s) = pyn_view s.
+Proof. exact timeout_restores. Qed.
+Print Assumptions C30_timeout_restores.
+
+Theorem C30_timeout_restores_except_replaced_streams : forall e t1 t2 s,
+  rest_view (exec_timeout e t1 t2 s) = rest_view s /\ std_streams (exec_timeout e t1 t2 s).
+Proof. exact timeout_restores_gen. Qed.
+Print Assumptions C30_timeout_restores_except_replaced_streams.
+
+(* The placement matters: handing the logging level back before the grace join is refuted. *)
+Theorem C30_early_logging_restore_refuted :
+  exists e t1 t2 s, std_streams s /\ pyn_view (exec_timeout_early_logging e t1 t2 s) <> pyn_view s.
+Proof. exact early_logging_restore_refuted. Qed.
+Print Assumptions C30_early_logging_restore_refuted.
+
 Theorem C30_restore_idempotent : forall sv s, restore sv (restore sv s) = restore sv s.
 Proof. exact restore_idempotent. Qed.
 Print Assumptions C30_restore_idempotent.
